@@ -118,6 +118,9 @@ def cond_of_call(prog, fn, t, tracer, depth=0, seen=None):
         return Cond(('call', cs, a0))
 
 
+_VARIANT_INDEX = {'Ok': 0, 'Err': 1, 'None': 0, 'Some': 1, 'Continue': 0, 'Break': 1}
+
+
 class GuardFlow:
     def __init__(self, prog, fn, atom_of, tracer=None, kills=None, assume=None):
         """atom_of(desc) -> atom name or None.
@@ -134,6 +137,7 @@ class GuardFlow:
         self.edge_states = {}
         self._conds = {}
         self._multi_def_bools = self._find_merge_bools()
+        self._variant_locals = self._find_variant_locals()
 
     def _find_merge_bools(self):
         """bool locals whose value is tracked in the path state: those with several definitions (merge temps of `&&`,
@@ -157,6 +161,34 @@ class GuardFlow:
                         changed = True
                         break
         return out
+
+    def _find_variant_locals(self):
+        """Locals whose enum variant (Ok / Err, Some / None, Continue / Break) is followed along the path: the return
+        places of helpers that have been spliced in, and whatever their value is copied / `branch`ed into.  Empty for a
+        function without spliced helpers, so nothing changes there."""
+        fn = self.fn
+        tracked = set(getattr(fn, 'ret_locals', None) or ())
+        if not tracked:
+            return tracked
+        changed = True
+        while changed:
+            changed = False
+            for bb, si, s in fn.stmts():
+                if s['k'] == 'assign' and 'p' not in s['pl'] and s['pl']['l'] not in tracked:
+                    rv = s['rv']
+                    src = rv.get('op') if rv['k'] == 'use' else None
+                    if src and src.get('k') in ('copy', 'move') and 'p' not in src['pl'] and src['pl']['l'] in tracked:
+                        tracked.add(s['pl']['l'])
+                        changed = True
+            for bb, t in fn.calls():
+                d = t.get('dest')
+                if d and 'p' not in d and d['l'] not in tracked and t['args'] \
+                        and callee_short(t).rsplit('::', 1)[-1] in ('branch', 'map_err', 'ok_or', 'ok_or_else', 'into'):
+                    a = t['args'][0]
+                    if a.get('k') in ('copy', 'move') and 'p' not in a['pl'] and a['pl']['l'] in tracked:
+                        tracked.add(d['l'])
+                        changed = True
+        return tracked
 
     def cond_at(self, bb):
         if bb in self._conds:
@@ -182,6 +214,14 @@ class GuardFlow:
                 continue
             pl = s['pl']
             rv = s['rv']
+            if 'p' not in pl and pl['l'] in self._variant_locals:
+                vk = 'V:%d' % pl['l']
+                st.pop(vk, None)
+                if rv['k'] == 'agg' and rv.get('var') in _VARIANT_INDEX:
+                    st[vk] = rv['var']
+                elif rv['k'] == 'use' and rv['op'].get('k') in ('copy', 'move') and 'p' not in rv['op']['pl'] \
+                        and ('V:%d' % rv['op']['pl']['l']) in st:
+                    st[vk] = st['V:%d' % rv['op']['pl']['l']]
             if 'p' not in pl and pl['l'] in self._multi_def_bools:
                 key = 'L:%d' % pl['l']
                 st.pop(key, None)
@@ -300,6 +340,18 @@ class GuardFlow:
                         ns[a] = av
                     yield tgt, ns
                 return
+            if self._variant_locals and d['k'] in ('copy', 'move') and 'p' not in d['pl']:
+                df = du(fn).single_def(d['pl']['l'])
+                if df and df['kind'] == 'assign' and df['rv']['k'] == 'discr' and 'p' not in df['rv']['pl'] \
+                        and ('V:%d' % df['rv']['pl']['l']) in st:
+                    idx = _VARIANT_INDEX[st['V:%d' % df['rv']['pl']['l']]]
+                    listed = [v for v, _ in t['ts']]
+                    for v, tgt in t['ts']:
+                        if v == idx:
+                            yield tgt, st
+                    if idx not in listed:
+                        yield t['else'], st
+                    return
             c = self.cond_at(bb)
             a = self.atom_for_cond(c)
             if a is None:
@@ -336,6 +388,22 @@ class GuardFlow:
                     ns = dict(st)
                     self._apply_kills(ns, ks)
             dst = t.get('dest')
+            if dst and 'p' not in dst and dst['l'] in self._variant_locals:
+                ns = dict(ns)
+                vk = 'V:%d' % dst['l']
+                ns.pop(vk, None)
+                nm = callee_short(t).rsplit('::', 1)[-1]
+                a0 = t['args'][0] if t['args'] else None
+                av = ns.get('V:%d' % a0['pl']['l']) if a0 and a0.get('k') in ('copy', 'move') and 'p' not in a0['pl'] else None
+                if nm == 'from_residual':
+                    ns[vk] = 'Err' if 'result::Result' in fn.local_ty(dst['l']) else 'None'
+                elif av is not None:
+                    if nm == 'branch':
+                        ns[vk] = 'Continue' if av in ('Ok', 'Some') else 'Break'
+                    elif nm in ('map_err', 'into'):
+                        ns[vk] = av
+                    elif nm in ('ok_or', 'ok_or_else'):
+                        ns[vk] = 'Ok' if av == 'Some' else 'Err'
             if dst and 'p' not in dst and dst['l'] in self._multi_def_bools:
                 # a merge-temp bool defined by a call on this path (`a && x.is_some()`)
                 ns = dict(ns)
@@ -384,6 +452,29 @@ class GuardFlow:
                     dq.append((succ, f))
         self.states = states
         return states
+
+    def feasible_path(self, starts, is_target, avoid=()):
+        """Is there a path, feasible under the tracked conditions, that passes one of `starts` and then reaches a block
+        satisfying is_target without touching `avoid`?  Returns the list of blocks of such a path or None."""
+        starts, avoid = set(starts), set(avoid)
+        seen = set()
+        stack = [(0, self.entry, False, (0,))]
+        while stack:
+            b, fs, started, pth = stack.pop()
+            if started and b in avoid:
+                continue
+            if b in starts:
+                started = True
+            if started and is_target(b) and b not in starts:
+                return list(pth)
+            if (b, fs, started) in seen:
+                continue
+            seen.add((b, fs, started))
+            st = dict(fs)
+            self._apply_stmts(b, st)
+            for succ, ns in self._out_edges(b, st):
+                stack.append((succ, frozenset(ns.items()), started, pth + (succ,) if len(pth) < 60 else pth))
+        return None
 
     def valuations_at(self, bb, atoms=None):
         """Set of valuations (as dict restricted to `atoms`) reaching block entry."""
